@@ -524,6 +524,25 @@ class C02(core.Prop):
                 cause = ':categorical'
             fail('raises', '%s: %s' % (type(v).__name__, msg[:200]), 'raises:%s%s' % (type(v).__name__, cause))
             return F
+        # the default repair of column types only concerns fields whose one required type is string or bool (a column of
+        # digits read as numbers, of 0 / 1 read as integers): elsewhere the verdicts with and without it are the same
+        def _scalar_sb(ks_):
+            return any(k_['kind'] == 'type' and k_['value'] in ('string', 'bool') for k_ in ks_)
+        if not any(_scalar_sb(ks_) for ks_ in case['constraints'].values()):
+            try:
+                eps_f = case['eps'][0] / case['eps'][1]
+                with quiet(), contextlib.redirect_stdout(io.StringIO()):
+                    vr = verify_df(cx.to_df(case['frame']),
+                                   tdda_dict(case['constraints'], None if case.get('naive_tz_bounds') else case['frame']),
+                                   epsilon=eps_f, type_checking='strict' if case['strict'] else 'sloppy')
+                a_ = {n_: {k_: bool(x_) for k_, x_ in f_.items()} for n_, f_ in v.fields.items()}
+                b_ = {n_: {k_: bool(x_) for k_, x_ in f_.items()} for n_, f_ in vr.fields.items()}
+                if a_ != b_:
+                    diff_ = sorted((n_, k_) for n_ in a_ for k_ in a_[n_] if b_.get(n_, {}).get(k_) != a_[n_][k_])
+                    fail('repair-changes-verdicts', 'no field requires the one type string or bool, and the default repair of '
+                         'column types changes the verdicts of %r' % diff_[:4], 'repair-changes-verdicts')
+            except Exception:   # noqa  (what verification raises is judged above)
+                pass
         tot_p = tot_f = 0
         for name, ks in case['constraints'].items():
             fr = v.fields.get(name)
